@@ -6,7 +6,7 @@
 From Coq Require Import List NArith String.
 From MV Require Import Gen.Consts Spec.SpecConsts.
 Import ListNotations.
-Open Scope N_scope.
+Local Open Scope N_scope.
 
 Lemma packet_type_bytes_are_the_spec_bytes : gen_packet_types = spec_packet_types.
 Proof. reflexivity. Qed.
